@@ -385,7 +385,7 @@ def build(repo):
     for k, fname in enumerate(("parse_expr", "parse_expr_init_value"), 1):
         pf = comp.fn(fname, within="CompilerState")
         cuts.append(pf)
-        m = re.search(r"let res = self\.\w+_ex\(pairs\)\?;(.*?)\bfor (\w+) in ([^{]+?)\s*\{", pf.text, re.S)
+        m = re.search(r"let res = self\.\w+_ex\(pairs(?:,[^)]*)?\)\?;(.*?)\bfor (\w+) in ([^{]+?)\s*\{", pf.text, re.S)
         if not m:
             raise Undecided("%s: literal drain loop not found" % fname)
         pre, var, it_expr = m.group(1), m.group(2), m.group(3).strip()
